@@ -41,6 +41,8 @@ def run(ck):
     c02.rule_R(ck, lib, pfx="C01")
     rule_S(ck)
     rule_T(ck)
+    if ck.tier == "thorough":
+        rule_T_repo(ck)
 
 
 def rule_T(ck, T="C01-T", D="C01-D"):
@@ -474,3 +476,59 @@ def rule_S(ck):
             ck.judge(got == want, "C01-S", key, "every path so far is extended by %s" % [w[1] for w in want],
                      "a step of paths() extends the paths by %s, expected %s" % ([g[1] if g[0] else "not-a-clone" for g in got], [w[1] for w in want]), data=pathsum.show_exit(x)[:800])
         ck.floor("C01-S", "steps of Command::paths", n, 4)
+
+
+def rule_T_repo(ck):
+    """C01-T on the repository's own interfaces (integration tests, bench, fuzz targets): configuration `tgt`
+    (`cargo check --workspace --all-targets` under the fact extractor)."""
+    fs = ctx.factset(ck, "tgt")
+    if fs.rc != 0:
+        ck.bad("C01-T", "tgt:build", "workspace --all-targets does not build under the extractor: %s" % fs.log[-800:])
+        return
+    specs = witness.repo_interfaces()
+    ck.floor("C01-T", "interfaces in the repository's own targets", len(specs), 4)
+    n = 0
+    for spec in specs:
+        # which crate: the fact file whose crate name matches the source file stem
+        stem = spec["mod"]
+        crates = [c for k, c in fs.crates.items() if k.split(".")[0] == stem]
+        if not crates:
+            ck.bad("C01-T", "tgt:%s:facts" % spec["file"], "no fact file for target %s (have %s)" % (stem, sorted(fs.crates)))
+            continue
+        it = None
+        for c in crates:
+            cand = witness.RepoIface(c, spec)
+            if cand.root_fn is not None:
+                it = cand
+        if it is None:
+            ck.bad("C01-T", "tgt:%s:interface" % spec["file"], "no Interface impl for %s found in the target's facts" % spec["type"])
+            continue
+        n += 1
+        decls = witness.S.full_decls(spec)
+        lang_spec, coll = witness.S.language(decls)
+        lang, problems, seen = it.language()
+        key = "tgt:%s:%s" % (spec["file"], spec["type"])
+        if coll or lang is None or problems:
+            ck.bad("C01-T", key + ":shape", "collisions %s / trie problems %s" % (coll[:1], problems[:2]))
+            continue
+        arms = witness.Arms(it, ctx.enums_of(it.crate))
+        id2fn = {}
+        for k, xs in arms.by_arm.items():
+            hs = set()
+            for x in xs:
+                for e in x.effects:
+                    if e[0] == "call" and (e[1].startswith("microscpi::commands::") or e[1].split("::")[-1] in [d["fn"] for d in decls]):
+                        if not e[1].endswith(("::len", "::get", "::try_into")):
+                            hs.add(e[1])
+            if len(hs) == 1:
+                id2fn[k] = hs.pop()
+        got = {k: id2fn.get(v) for k, v in lang.items()}
+        bad = []
+        for k2, fn in lang_spec.items():
+            g = got.get(k2)
+            if g is None or (("::" in fn and g != fn) or ("::" not in fn and g.split("::")[-1] != fn)):
+                bad.append((":".join(k2[0]), k2[1], fn, g))
+        extra = [(":".join(k2[0]), k2[1]) for k2 in got if k2 not in lang_spec]
+        ck.judge(not bad and not extra, "C01-T", key + ":language", "%d spellings equal to the oracle's (%d declarations)" % (len(lang_spec), len(decls)),
+                 "repository interface %s: wrong/missing %s, extra %s" % (spec["type"], bad[:4], extra[:4]))
+    ck.extra["repo_target_interfaces"] = n
